@@ -2,6 +2,8 @@
 package c12
 
 import (
+	"github.com/ipld/go-ipld-prime/node/bindnode"
+	"github.com/ipld/go-ipld-prime/schema"
 	"github.com/ucan-wg/go-ucan/pkg/policy"
 	"github.com/ucan-wg/go-ucan/pkg/policy/literal"
 	"encoding/json"
@@ -135,6 +137,10 @@ func run(c *h.Ctx, cs Case) {
 	case 1:
 		data = cs.Data.NodeNilBytes()
 		c.P.Class("repr:nil-empty-bytes")
+	case 3:
+		// the schema-typed person (TestTypedSubjects): cs.Data is that node read through the data-model interface
+		data = typedPerson()
+		c.P.Class("repr:schema-typed")
 	case 2:
 		if b, err := ipld.Encode(data, dagcbor.Encode); err == nil {
 			if d2, err := ipld.Decode(b, dagcbor.Decode); err == nil {
@@ -582,4 +588,93 @@ func TestSegmentTriples(t *testing.T) {
 		}
 	}
 	P.SetExtra("segment_triple_cases", n)
+}
+
+// ---------- schema-typed subjects ----------
+
+type tName struct {
+	First string
+	Last  string
+}
+type tPt struct {
+	X int64
+	Y int64
+}
+type tPerson struct {
+	Name  tName
+	Nick  string
+	Pt    tPt
+	Tags  []string
+	Attrs struct {
+		Keys   []string
+		Values map[string]int64
+	}
+}
+
+var personType = func() schema.Type {
+	ts, err := ipld.LoadSchemaBytes([]byte(`
+type Name struct {
+  first String
+  last String
+} representation stringjoin {
+  join ":"
+}
+type Pt struct {
+  x Int
+  y Int
+} representation tuple
+type Person struct {
+  name Name
+  nick String (rename "n")
+  pt Pt
+  tags [String]
+  attrs {String:Int}
+}
+`))
+	if err != nil {
+		panic(err)
+	}
+	return ts.TypeByName("Person")
+}()
+
+func typedPerson() ipld.Node {
+	p := &tPerson{Name: tName{"ada", "lovelace"}, Nick: "al", Pt: tPt{3, 4}, Tags: []string{"x", "y", "z"}}
+	p.Attrs.Keys = []string{"b", "aa"}
+	p.Attrs.Values = map[string]int64{"b": 1, "aa": 2}
+	return bindnode.Wrap(p, personType)
+}
+
+// TestTypedSubjects: the subject is a schema-typed node (a caller's domain type bound with bindnode) whose REPRESENTATION
+// has another shape than the value: a struct written as a joined string, a struct written as a tuple, a renamed field.
+// A selector is resolved on the value it is given - the map with the fields first / last, x / y, nick - as the reference
+// resolves it on the same value read through the data-model interface; not on what the value would look like encoded.
+func TestTypedSubjects(t *testing.T) {
+	person := typedPerson()
+	whole := val.FromNode(person)
+	names := []string{"name", "first", "last", "nick", "n", "pt", "x", "y", "tags", "attrs", "b", "aa", "zz"}
+	var pool []sel.Seg
+	for _, nm := range names {
+		pool = append(pool, sel.Seg{Kind: "field", Name: nm}, sel.Seg{Kind: "field", Name: nm, Opt: true})
+	}
+	pool = append(pool, sel.Seg{Kind: "index", Idx: 0}, sel.Seg{Kind: "index", Idx: 1, Opt: true}, sel.Seg{Kind: "index", Idx: -1}, sel.Seg{Kind: "slice", From: ip(0), To: ip(1)}, sel.Seg{Kind: "slice", From: ip(1), Opt: true}, sel.Seg{Kind: "iter"}, sel.Seg{Kind: "iter", Opt: true})
+	n := 0
+	for i := range pool {
+		prop.One(t, Case{Sel: sel.Sel{pool[i]}, Data: whole, Repr: 3})
+		n++
+		for j := range pool {
+			prop.One(t, Case{Sel: sel.Sel{pool[i], pool[j]}, Data: whole, Repr: 3})
+			n++
+			if pool[i].Kind != "field" || pool[i].Opt {
+				continue
+			}
+			for k := range pool {
+				if (j+k)%3 != 0 && !h.Thorough() {
+					continue
+				}
+				prop.One(t, Case{Sel: sel.Sel{pool[i], pool[j], pool[k]}, Data: whole, Repr: 3})
+				n++
+			}
+		}
+	}
+	P.SetExtra("typed_subject_cases", n)
 }
